@@ -51,7 +51,7 @@ CHECKS = {
    design="DESIGN.md §5 C14"),
  "C01": dict(
    technique="property-based testing / fuzz-style generation: grammar+mutation fragments through every parser consumer, frame streams through link+transport at all decode levels, hostile session scripts with a liveness probe",
-   text="Three generators: (1) grammar-derived and mutated application fragments through ParsedFragment::parse, Display at all decode levels, header iteration, request/response validation, measurement extraction with a draining handler and control echo writers; (2) frame streams with arbitrary control bytes, addresses, transport headers and damage through the real link layer and transport reassembly, both roles, all decode-level combinations; (3) hostile session scripts (fragments, raw segments, raw wire bytes, state-moving requests, updates into tiny event buffers, confirms, time, reconnects) against a real outstation session with generated configuration. Oracle: no panic (overflow checks and debug assertions on), no busy loop at one virtual instant, and after the script the endpoint still answers a link status request and a READ with a fresh sequence number (Close mode: on the next connection). The master role is covered by the master_script sub-check once the MasterRig is in place.",
+   text="Four generators: (1) grammar-derived and mutated application fragments through ParsedFragment::parse, Display at all decode levels, header iteration, request/response validation, measurement extraction with a draining handler and control echo writers; (2) frame streams with arbitrary control bytes, addresses, transport headers and damage through the real link layer and transport reassembly, both roles, all decode-level combinations; (3) hostile session scripts (fragments, raw segments, raw wire bytes, state-moving requests, updates into tiny event buffers, confirms, time, reconnects) against a real outstation session with generated configuration. Oracle: no panic (overflow checks and debug assertions on), no busy loop at one virtual instant, and after the script the endpoint still answers a link status request and a READ with a fresh sequence number (Close mode: on the next connection). (4) the same for a real master: hostile responses (sequence-matched or not, echo deviations, hostile object parts) to every kind of user request and auto task, raw segments and bytes, foreign sources, with the start-up sequence or a quiet association; afterwards the master must answer a link status request and serve a user READ.",
    note="Non-yielding infinite loops are only caught by a wall-clock watchdog and reported as INCONCLUSIVE. TLS/serial/UDP sockets are not exercised; datagram semantics are (C06).",
    design="DESIGN.md §5 C01"),
  "C07": dict(
